@@ -23,7 +23,7 @@ import (
 
 // c19Val is a value of the algebra together with its written form.
 type c19Val struct {
-	kind  byte // 's' scalar, 'l' list, 'm' mapping
+	kind  byte // 's' scalar, 'l' list, 'm' mapping, 'e' scalar holding a ${{ }} expression
 	s     string
 	elems []*c19Val
 	keys  []string // written order
@@ -31,6 +31,7 @@ type c19Val struct {
 }
 
 func c19S(s string) *c19Val      { return &c19Val{kind: 's', s: s} }
+func c19E() *c19Val              { return &c19Val{kind: 'e', s: "'${{ fromJSON(vars.E) }}'"} }
 func c19L(es ...*c19Val) *c19Val { return &c19Val{kind: 'l', elems: es} }
 func c19M(kv ...any) *c19Val {
 	m := &c19Val{kind: 'm', vals: map[string]*c19Val{}}
@@ -44,7 +45,7 @@ func c19M(kv ...any) *c19Val {
 
 func (v *c19Val) yaml() string {
 	switch v.kind {
-	case 's':
+	case 's', 'e':
 		return v.s
 	case 'l':
 		parts := make([]string, len(v.elems))
@@ -63,8 +64,8 @@ func (v *c19Val) yaml() string {
 // canon is the structural identity (member order irrelevant).
 func (v *c19Val) canon() string {
 	switch v.kind {
-	case 's':
-		return "s:" + v.s
+	case 's', 'e':
+		return string(v.kind) + ":" + v.s
 	case 'l':
 		parts := make([]string, len(v.elems))
 		for i, e := range v.elems {
@@ -83,6 +84,9 @@ func (v *c19Val) canon() string {
 
 // c19Contains: candidate c contains filter x (mappings by subset, sequences element-wise, scalars by equality).
 func c19Contains(c, x *c19Val) bool {
+	if c.kind == 'e' || x.kind == 'e' {
+		return true // a value built from an expression may be anything: never the reason for a report
+	}
 	if c.kind != x.kind {
 		return false
 	}
@@ -330,8 +334,8 @@ func c19ExcludeCase(r *vReport, c *c19Exclude, lint func(string) vLintResult) {
 func TestVerifC19(t *testing.T) {
 	r := vNewReport("C19")
 	defer r.Write(t)
-	r.Extra["rule"] = "value algebra V (scalars, sequences, mappings to depth 2, both written member orders): duplicate check on all rows of 2 and 3 values over V; exclude check on rows of <=2 values over V' x {no include, include same key, include-only key} x exclude {row key, include-only key, undefined key} x value in V', plus rows / include / include entries / exclude entries given by expressions; a sub-slice under every map iteration order (deviation 1). oracle = structural equality / containment by recursion. class = (check, reference verdict); non-trivial = something must be reported"
-	r.Extra["assumptions"] = []string{"'built from expressions' means a whole row / whole include / whole entry (DESIGN section 7); a single expression element inside a literal row is not claimed"}
+	r.Extra["rule"] = "value algebra V (scalars, sequences, mappings to depth 2, both written member orders): duplicate check on all rows of 2 and 3 values over V; exclude check on rows of <=2 values over V' x {no include, include same key, include-only key} x exclude {row key, include-only key, undefined key} x value in V', plus rows / include / include entries / exclude entries given by expressions, and single members replaced by expressions at every depth (8 shapes) in rows, include and exclude values; a sub-slice under every map iteration order (deviation 1). oracle = structural equality / containment by recursion. class = (check, reference verdict); non-trivial = something must be reported"
+	r.Extra["assumptions"] = []string{"'built from expressions' covers a whole row / include / entry and, for the exclude check, any single member at any depth (it may be anything); duplicate reports among expression members of one row are not claimed"}
 	lint := func(src string) vLintResult { return vLint(src, nil) }
 	if raw := vReplayInput(); raw != nil {
 		var rp struct {
@@ -440,6 +444,54 @@ func TestVerifC19(t *testing.T) {
 			}
 		}
 	}
+	// single members replaced by expressions (in rows, include values and exclude values, at
+	// every nesting depth of the algebra): such a member may be anything
+	{
+		one, two, e := c19S("1"), c19S("2"), c19E()
+		ve := []*c19Val{e, c19L(e), c19L(one, e), c19L(e, two), c19M("a", e), c19M("a", one, "b", e), c19M("a", c19M("a", e)), c19M("a", c19L(e))}
+		plain := []*c19Val{one, c19L(one, two), c19M("a", one), c19M("a", one, "b", two)}
+		var erows [][]*c19Val
+		for _, a := range ve {
+			erows = append(erows, []*c19Val{a})
+			for _, b := range plain {
+				erows = append(erows, []*c19Val{a, b}, []*c19Val{b, a})
+			}
+		}
+		eincs := []inc{{"", nil}}
+		for _, v := range ve[:5] {
+			eincs = append(eincs, inc{"k", v}, inc{"inc", v})
+		}
+		filters := append(append([]*c19Val{}, Vs...), ve...)
+		for _, row := range erows {
+			for _, in := range eincs {
+				for _, ek := range []string{"k", "inc"} {
+					for _, ev := range filters {
+						idx++
+						if !r.Mine(idx) {
+							continue
+						}
+						if idx%4096 == 0 && r.Expired() {
+							return
+						}
+						c := &c19Exclude{Row: row, IncKey: in.key, IncVal: in.val, ExcKey: ek, ExcVal: ev}
+						r.Begin(func() string { _, d := c.render(); return d })
+						c19ExcludeCase(r, c, lint)
+					}
+				}
+			}
+		}
+		// plain rows against filters holding an expression member
+		for _, row := range rows[:40] {
+			for _, ev := range ve {
+				idx++
+				if !r.Mine(idx) {
+					continue
+				}
+				c := &c19Exclude{Row: row, ExcKey: "k", ExcVal: ev}
+				c19ExcludeCase(r, c, lint)
+			}
+		}
+	}
 	// expression-built parts
 	for _, row := range rows[:14] {
 		for _, ek := range []string{"k", "inc", "zz"} {
@@ -521,6 +573,8 @@ func vExploreMapC19(r *vReport, name string, body func(x *vsched.Exec) string) *
 		parts := strings.SplitN(v.Msg, "\x00", 2)
 		if len(parts) == 2 {
 			r.Violation("map-order:"+parts[0], parts[1]+fmt.Sprintf(" | map deviations %v", v.Choices), map[string]any{"src": name, "kind": "dup-map-order"})
+		} else {
+			r.Violation("failure", vTrunc(v.Msg, 600), map[string]any{"src": name, "kind": "dup-map-order"})
 		}
 	}
 	r.Class("map-order slice", true)
